@@ -542,7 +542,7 @@ func c09R1(c *Ctx) {
 		if f := c09FnByName(c.P, name); f == nil {
 			c.LostAnchor(R1, "idempotent-read table entry "+name)
 		} else if w := c09FirstWrite(f); w != "" {
-			c.Violation(R1, "idempotent-read-table|"+name, f.Pos(), "the function is listed as an idempotent read but now contains a write ("+w+"); the loop-progress table must be reviewed")
+			c.Undecided(R1, "idempotent-read-table|"+name, f.Pos(), "the function is listed as an idempotent read but now contains a write ("+w+"); the loop-progress engine cannot rely on the table entry any more — review it")
 		}
 	}
 	idem := func(n string) bool { _, ok := c09IdempotentReads[n]; return ok }
